@@ -17,3 +17,4 @@ open Qvnt
 #print axioms C02_spec
 #print axioms C02_spec_apply
 #print axioms C02_code_refuse
+#print axioms C02_code_block
